@@ -437,9 +437,9 @@ fn build_listened(name: &str, w: &Arc<World>, mask: u8, seed: u64) -> (Svc, Arc<
                 .max_concurrent_calls(1)
                 .max_wait_duration(Duration::from_millis(2))
                 .on_call_permitted(move |_| h0(0))
-                .on_call_rejected(move |_| h1(1))
-                .on_call_finished(move |_| h2(2))
-                .on_call_failed(move |_| h3(3))
+                .on_call_permitted(move |_| h1(1))
+                .on_call_rejected(move |_| h2(2))
+                .on_call_finished(move |_| h3(3))
                 .build();
             boxed_svc(l.layer(inner), |e| match e {
                 tower_resilience_bulkhead::BulkheadServiceError::Inner(p) => Outcome::inner(&p),
@@ -473,9 +473,9 @@ fn build_listened(name: &str, w: &Arc<World>, mask: u8, seed: u64) -> (Svc, Arc<
                 .sliding_window_size(3)
                 .minimum_number_of_calls(3)
                 .wait_duration_in_open(Duration::from_millis(5))
-                .on_state_transition(move |_, _| h0(0))
+                .on_call_permitted(move |_| h0(0))
                 .on_call_permitted(move |_| h1(1))
-                .on_call_rejected(move || h2(2))
+                .on_state_transition(move |_, _| h2(2))
                 .on_failure(move |_| h3(3))
                 .build();
             boxed_svc(l.layer(inner), |e| crate::props::c04::map_err(&e))
@@ -531,9 +531,9 @@ fn build_listened(name: &str, w: &Arc<World>, mask: u8, seed: u64) -> (Svc, Arc<
                 .fixed_backoff(Duration::from_millis(1))
                 .retry_on(|e: &PErr| e.class == 1)
                 .on_retry(move |_, _| h0(0))
-                .on_success(move |_| h1(1))
-                .on_error(move |_| h2(2))
-                .on_ignored_error(move || h3(3))
+                .on_retry(move |_, _| h1(1))
+                .on_success(move |_| h2(2))
+                .on_error(move |_| h3(3))
                 .build();
             boxed_svc(l.layer(inner), |e: PErr| Outcome::inner(&e))
         }
